@@ -64,6 +64,7 @@ class LenEval(SE.SymEval):
         super().__init__(None, budget=20000)
         self.track_let_blocks = True
         self.exits = []
+        self.underflows = []
 
     # symbolic integer value of an expression
     def lin(self, e, env):
@@ -92,6 +93,89 @@ class LenEval(SE.SymEval):
             if vk and ('#' + vk) in env:
                 return env['#' + vk]
         return None
+
+    # ------------------------------------------------------------------ index arithmetic
+    def lower(self, form, env):
+        """least value of a form under the tracked lower bounds of its symbols (None: unbounded below)"""
+        lb = env.get('#lb', {})
+        v = form.c
+        for s_, coef in form.t.items():
+            if coef < 0:
+                return None
+            v += coef * lb.get(s_, 0)
+        return v
+
+    def scan_sub(self, e, env):
+        def rec(n):
+            if isinstance(n, dict):
+                if n.get('k') in ('closure',) or (n.get('k') == 'block' and n.get('stmts')):
+                    return
+                if n.get('k') == 'binary' and n.get('op') == 'Sub' and n.get('ty') == 'usize':
+                    f = self.lin(n, env)
+                    if f is not None:
+                        lo = self.lower(f, env)
+                        if lo is not None and lo < 0:
+                            self.underflows.append((n.get('ln'), repr(f), lo))
+                for k, v in n.items():
+                    if k not in H.CHILD_SKIP:
+                        rec(v)
+            elif isinstance(n, list):
+                for x in n:
+                    rec(x)
+        rec(e)
+
+    def invalidate(self, e, env):
+        """a call that is handed one of the tracked vectors (and is not one of the modelled methods) may change it"""
+        hit = set()
+
+        def rec(n, top=True):
+            if isinstance(n, dict):
+                if n.get('k') in ('closure',) or (n.get('k') == 'block' and n.get('stmts')) or n.get('k') in ('if', 'match', 'loop'):
+                    return
+                if n.get('k') == 'call' and n['f'].get('k') == 'path':
+                    for a in n['args']:
+                        vk = vec_kind(a)
+                        if vk and ((strip(a).get('ty') or '').startswith('&mut') or strip(a).get('k') == 'addr'):
+                            hit.add(vk)
+                for k, v in n.items():
+                    if k not in H.CHILD_SKIP:
+                        rec(v, False)
+            elif isinstance(n, list):
+                for x in n:
+                    rec(x, False)
+        rec(e)
+        if not hit:
+            return env
+        env2 = dict(env)
+        for vk in hit:
+            env2['#' + vk] = None
+        return env2
+
+    def stmt(self, st, env, knext, kret, as_tail=None):
+        if isinstance(st, dict) and st.get('k') in ('slet', 'call', 'mcall', 'assign'):
+            env = self.invalidate(st.get('init', st) if st.get('k') == 'slet' else st, env)
+        if isinstance(st, dict) and not env.get('#dead'):
+            if st.get('k') == 'slet' and 'init' in st:
+                self.scan_sub(st['init'], env)
+            elif st.get('k') in ('assign', 'assignop'):
+                self.scan_sub(st['r'], env)
+                self.scan_sub(st['l'], env)
+        return super().stmt(st, env, knext, kret, as_tail)
+
+    def not_equal(self, env, a, b):
+        """a != b: raises the lower bound of a symbol that sat exactly on the excluded value"""
+        d = a.add(b, -1)
+        if len(d.t) != 1:
+            return env
+        (sym, coef), = d.t.items()
+        if abs(coef) != 1:
+            return env
+        excluded = -d.c * coef
+        lb = dict(env.get('#lb', {}))
+        if lb.get(sym, 0) == excluded:
+            lb[sym] = excluded + 1
+            env['#lb'] = lb
+        return env
 
     def effect(self, st, env):
         e = strip(st)
@@ -191,6 +275,8 @@ class LenEval(SE.SymEval):
             cur = env.get('#' + vk)
             if pol and cur is not None:
                 return self.equate(env2, cur, Lin(0))
+            if not pol and cur is not None:
+                return self.not_equal(env2, cur, Lin(0))
             return env2
         if c0.get('k') == 'binary' and c0.get('op') in ('Eq', 'Lt', 'Gt', 'Le', 'Ge', 'Ne'):
             a, b = self.lin(c0['a'], env), self.lin(c0['b'], env)
@@ -199,6 +285,8 @@ class LenEval(SE.SymEval):
                 return env2
             if (op == 'Eq' and pol) or (op == 'Ne' and not pol):
                 return self.equate(env2, a, b)
+            if (op == 'Eq' and not pol) or (op == 'Ne' and pol):
+                return self.not_equal(env2, a, b)
             # `k < v.len()` (true) : truncate(k) on v is exact
             lt = None
             if (op == 'Lt' and pol) or (op == 'Ge' and not pol):
@@ -229,11 +317,13 @@ class LenEval(SE.SymEval):
         return env
 
 
-def check(facts, hfn):
+def check(facts, hfn, mode='in-step'):
     """returns (ok, why, n_exits)"""
     ev = LenEval()
     body = hfn['body']
-    env0 = {'#P': Lin(0, {'n': 1}), '#L': Lin(0, {'m': 1})}
+    # the curve builders hand over at least one vertex (an empty control point list never gets here with an
+    # expected length that needs fitting: its single 0.0 length takes the `len() == 1` exit)
+    env0 = {'#P': Lin(0, {'n': 1}), '#L': Lin(0, {'m': 1}), '#lb': {'n': 1}}
 
     def at_exit(env, what):
         if env.get('#dead'):
@@ -257,6 +347,14 @@ def check(facts, hfn):
             bad.append('%s: %s vertices but %s cumulative lengths' % (what, p_, l_))
     if n == 0:
         return False, 'no exit of the function was analysed', 0
+    if mode == 'underflow':
+        if any(p_ is None or l_ is None for p_, l_, q_, w_ in ev.exits if not q_):
+            return False, 'the number of entries is not determined by the tracked operations', n
+        if ev.underflows:
+            ln, f, lo = ev.underflows[0]
+            return False, ('index arithmetic at line %s can go below zero (%s can be %d): a `usize` subtraction that '
+                           'panics / wraps' % (ln, f, lo)), n
+        return True, '', n
     if bad:
         return False, bad[0], n
     return True, '', n
